@@ -1,9 +1,16 @@
 from common import T_COMMON
+from cfg_C04 import T_PLY
 
 CFG = dict(
-    theorems=["fan_quad"],
-    streams=[dict(name="c08", n=dict(quick=400, thorough=20000))],
-    trusted=T_COMMON,
-    residue=[],
+    theorems=["ply_offset_is_prefix_sum", "ply_column_is_header_index", "ply_record_field_any_layout",
+              "ply_unclaimed_scalar_reads_own_field", "ply_header_line_lf_crlf", "fan_quad", "ply_reader_quad_fan",
+              "ply_reader_triangle", "ply_mixed_type_group_not_claimed"],
+    streams=[dict(name="c08", n=dict(quick=400, thorough=15000))],
+    trusted=T_PLY + ["the independent Go reference encoder in c08.go produces the bytes fed to ply.ReadMesh; c08.encode checks on every case that the Lean refEncode yields the same bytes"],
+    residue=["ply_reads_spec_full (readMesh (refEncode f) = meaning f for every SpecFile) is a def … : Prop, NOT a theorem; on every generated SpecFile the oracle c08.holds.meaning checks that ply.ReadMesh's result equals `meaning f` and c08.read that the model reader agrees with ply.ReadMesh",
+             "proved for all inputs: location arithmetic of scalar readers for any property order (binary offsets = prefix sums of sizes, ASCII column = header index), decoding at that location, LF/CRLF line reading, quad fan; the 2-/3-/4-vector claim scan, claimed/unclaimed partition, header keyword parsing and list readers are modelled and corresponded, not proved",
+             "guards of the grammar the generators stay inside (each violated by the unchanged tree, see witnesses): one scalar type inside a recognised group; ASCII values exactly representable in float32; no 8-bit unrecognised scalar in ASCII; at least one face when a face element is declared; no uchar s/t pair (vector2.DivByConstant multiplies by 1/255: 1 ulp off b/255)",
+             "SpecFile fixes the element order vertex, face and has no other elements (the reader ignores header element order and reads vertex data first); face element holds list properties only",
+             "non-ASCII white space (U+0085, U+00A0 …) in header lines, tokens longer than bufio.Scanner's 64 KiB limit: not modelled"],
     assumptions=[],
 )
